@@ -39,7 +39,7 @@ def check_spline(ctx):
         t = reps[0].data['result']
         sx, sy, ss = targ(t, 'x', 0), targ(t, 'y', 1), targ(t, 's', None)
         if tag == 's omitted':
-            want = Num(L * sym.mk_reduce('Std', y.r, L) * sym.mk_reduce('Std', y.r, L))
+            want = Num(L * sym.variance_form(y.r, L))
         else:
             want = sval
         ok = isinstance(ss, Num) and ss.length is None and ss.r == want.r
